@@ -1,6 +1,7 @@
 ------------------------------------- MODULE ClosedJudge -------------------------------------
 (* C16, role R3 (emitted modules): [acc, parses, unbound |-> names read but bound nowhere (not builtins),            *)
 (* source_free |-> names the source itself leaves free, problems |-> import problems (duplicate, not at the top),       *)
+(* user_imports |-> the import bindings of the source (module|name|alias), imports |-> those of the emitted module;            *)
 (* support_used |-> support names the module references, support_imported |-> support names its imports bind]            *)
 EXTENDS Naturals, Sequences, FiniteSets, TLC, Json, IOUtils
 Rec == ndJsonDeserialize(IOEnv.TRACE)
@@ -9,6 +10,7 @@ Judge(o) == IF ~o.acc THEN "skip:rejected" ELSE IF ~o.parses THEN "skip:does-not
             ELSE IF ~(AsSet(o.unbound) \subseteq AsSet(o.source_free)) THEN "violation:name-used-but-not-imported-or-defined"
             ELSE IF Len(o.problems) > 0 THEN "violation:support-import-duplicated-or-not-at-the-top"
             ELSE IF ~(AsSet(o.support_used) \subseteq AsSet(o.support_imported) \cup AsSet(o.source_free) \cup AsSet(o.source_names)) THEN "violation:support-name-used-without-import"
+            ELSE IF ~(AsSet(o.user_imports) \subseteq AsSet(o.imports)) THEN "violation:user-import-not-reproduced"
             ELSE "ok"
 VARIABLE r
 Init == r \in 1..Len(Rec)
